@@ -7,6 +7,7 @@ package redisemu
 
 import (
 	"context"
+	iofs "io/fs"
 	"sync"
 	"time"
 
@@ -148,3 +149,14 @@ func vChoiceBig(name string, n int) int {
 	vAssume(idx < n)
 	return idx
 }
+
+// vDirEntry is the directory entry the engine's file-system model hands to
+// filepath.WalkDir callbacks (natively the real file system is walked).
+type vDirEntry struct{ name string }
+
+func (d vDirEntry) Name() string                 { return d.name }
+func (d vDirEntry) IsDir() bool                  { return false }
+func (d vDirEntry) Type() iofs.FileMode          { return 0 }
+func (d vDirEntry) Info() (iofs.FileInfo, error) { return nil, nil }
+
+var _ iofs.DirEntry = vDirEntry{}
